@@ -174,7 +174,7 @@ def build_bank(cfg):
 
     cfg = copy.deepcopy(cfg)
     kinds = cfg.pop("_kinds", None) or {}
-    conv = {"int": int, "float": float, "np.int64": np.int64, "np.int32": np.int32, "np.float64": np.float64, "np.bool_": np.bool_}
+    conv = {"int": int, "float": float, "np.int64": np.int64, "np.int32": np.int32, "np.int16": np.int16, "np.uint16": np.uint16, "np.float32": np.float32, "np.float64": np.float64, "np.bool_": np.bool_}
     for k, t in kinds.items():
         if cfg.get(k) is not None:
             cfg[k] = conv[t](cfg[k])
